@@ -2592,12 +2592,43 @@ class Convex:
 
     def sum(self, axis=None):
 
-        if self.xtype not in 'XL':
+        if self.xtype not in 'XL' or isinstance(self, PerspConvex):
             raise ValueError('Convex functions do not support the sum() method.')
 
-        return Convex(self.affine_in, self.affine_out.sum(axis=axis),
-                      self.xtype, self.sign, self.multiplier, axis,
-                      params=('sum', axis))
+        affine_in, affine_out = self.affine_in, self.affine_out
+        if self.params is None:
+            # one term per entry of the element-wise expression: the
+            # argument is broadcast against the affine part added to it
+            shape = np.broadcast_shapes(affine_in.shape, np.shape(affine_out))
+            if affine_in.shape != shape:
+                affine_in = affine_in + np.zeros(shape)
+            if np.shape(affine_out) != shape:
+                affine_out = affine_out + np.zeros(shape)
+            done = ()
+        else:
+            # summed before: the axes already summed out are kept
+            done = self.params[1]
+            if done is None:
+                done = tuple(range(len(affine_in.shape)))
+            elif not isinstance(done, tuple):
+                done = (done % len(affine_in.shape), )
+        rest = [i for i in range(len(affine_in.shape)) if i not in done]
+        if axis is None:
+            new = tuple(rest)
+        else:
+            new = axis if isinstance(axis, tuple) else (axis, )
+            new = tuple(rest[i] for i in new)
+        axes = tuple(sorted(done + new))
+        if self.params is None:
+            sum_axis = axis
+        elif len(axes) == len(affine_in.shape):
+            sum_axis = None
+        else:
+            sum_axis = axes
+
+        return Convex(affine_in, affine_out.sum(axis=axis),
+                      self.xtype, self.sign, self.multiplier, sum_axis,
+                      params=('sum', sum_axis))
 
     def __call__(self):
 
